@@ -355,6 +355,13 @@ def run(ctx):
             if "Vec<char>" in (c.get("ty") or "") and any(x.get("k") == "MethodCall" and x.get("method") == "chars" for x in hir.walk(c["recv"])):
                 others.append("%s:%s" % (it["name"], c.get("line")))
     ctx.ob("S-ENV", "no other function of the enum parser turns a &str into a Vec<char>", not others, "%s" % others)
+    # "same input, equal result" is decided with Term::eq, which for set-backed compounds is HashSet equality and so depends on Hash being
+    # order-independent (seed c08-n: the per-element hasher hoisted out of hash_terms_unordered)
+    import eqhash as _eqh
+    _st, _cap = _eqh.rule_H_STORAGE(ctx)
+    _classes = _eqh.rule_H_EQSHAPE(ctx, _st, _cap)
+    _eqh.rule_H_ORDER(ctx)
+    _eqh.rule_H_HASH(ctx, _st, _classes)
     ctx.undecided = ["nothing of substance: determinism of a state-free, deterministic function is the absence of carried state; "
                      "std/dep callees (HashSet iteration order aside, see C06/C07) are assumed deterministic"]
     ctx.assumptions = ["MIR construction and call resolution are correct", "external callees do not keep state between calls"]
